@@ -216,6 +216,15 @@ def _hinge(rng, phi, n):
 
 def _feature_oracle(ctx, V, F, declared, only_border, corner_order, flag_corners, tag, near):
     import mouette as M
+    if len(F) % 5 == 2 and all(len(f) == 3 for f in F):
+        # the same surface far from the origin (geo-referenced data): the offset is a power of two times a short vector, 1e5..1e7 mesh sizes;
+        # the stored (rounded) coordinates are the input of both the library and the reference
+        V = np.asarray(V, float)
+        size = float(np.ptp(V, axis=0).max()) or 1.0
+        k = 2.0 ** math.ceil(math.log2(size * [1e5, 1e6, 1e7][len(V) % 3]))
+        V = V + k * np.array([[1.0, -0.5, 0.25], [0.0, 1.0, 0.5], [-1.0, 0.25, 1.0]][len(F) % 3])
+        ctx.cls("features:far_from_origin")
+        near = max(near or 0.0, 1e-5)
     ref = RefSurface(len(V), F)
     E = [list(e) for e in declared] if declared else None
     ok, m = ctx.call("build", build.surface, V, F, "list", "list", E, monitor="features")
